@@ -17,8 +17,10 @@ EXTENDS Lifecycle, Json
 CONSTANTS Family,     \* "event1" | "event2" | "raw" | "rawevent" | "join"
           Versions,   \* room versions to enumerate
           TypesC,     \* subject types to enumerate
-          Depth,      \* "core" | "full" | "extra": class sets
-          FieldSet,   \* "core": identifier / structure / content fields only; "full": every field
+          Depth,      \* "core" | "full" | "extra" | "edge" | "none" (only the well-formed subject): class sets
+          FieldSet,   \* "core": identifier / structure / content fields only; "edge": those plus numbers, signatures,
+                      \* pseudo-ID keys, spellings and a few duplicated keys; "full": every field
+          Entries,    \* the constructors that start a pipeline (ParseOps)
           MaxOps,     \* longest pipeline (operations, the parse included)
           Heavy,      \* heavy observers applied directly after the parse
           HeavyAfter, \* heavy observers applied after a mutator
@@ -34,15 +36,33 @@ TypesAll == Types
 TypesA == {"create", "member", "member_tpi"}
 TypesB == {"power_levels", "join_rules", "third_party_invite"}
 TypesC4 == {"redaction", "aliases", "history_visibility", "message"}
-HeavyAll == HeavyOps
+HeavyAll == HeavyBase
+HeavyEnv == EnvOps
+HeavyEverything == HeavyOps
+\* the all-versions family: one representative of every kind of heavy operation, the new roles, handlers, and the
+\* callbacks answering nothing / failing
+HeavyEdge == {"VerifySignatures", "AuthCheck:provider", "Resolve:new:bare", "Resolve:new:dup", "Handle:Invite", "Perform:Invite",
+              "AuthCheck:event@qnil"}
+HeavyMid11 == {"VerifySignatures", "AuthCheck:event", "AuthCheck:provider", "AddToProvider", "Resolve:new:both", "Resolve:old:both",
+               "Resolve:direct:both", "Resolve:topo_auth:all", "Resolve:checkstate:state", "Resolve:sendjoin:auth", "Resolve:load:all"}
+Heavy2 == {"AuthCheck:event", "Resolve:new:both"}
+Heavy8 == {"VerifySignatures", "AuthCheck:event", "AuthCheck:provider", "AddToProvider", "Resolve:new:both", "Resolve:direct:both",
+           "Resolve:checkstate:state", "Resolve:sendjoin:auth"}
+VersionsFourQ == {"2", "5", "12", "org.matrix.msc4014"}
+EntriesAll == ParseOps
+EntriesUntrusted == {"Parse:untrusted"}
+MutsTwo == {"Redact", "Sign"}
+VersionsFive == {"2", "5", "11", "12", "org.matrix.msc4014"}
 HeavyLiteSet == HeavyLite
 HeavyMid == {"VerifySignatures", "AuthCheck:event", "AuthCheck:provider", "AddToProvider", "Resolve:new:both", "Resolve:old:both",
-             "Resolve:direct:both", "Resolve:topo_auth:all", "Resolve:checkstate:state", "Resolve:sendjoin:auth", "Resolve:load:all"}
+             "Resolve:direct:both", "Resolve:topo_auth:all", "Resolve:checkstate:state", "Resolve:sendjoin:auth", "Resolve:load:all",
+             "Resolve:new:bare", "Resolve:direct:dup", "Handle:Invite", "Handle:SendJoin", "Handle:MakeJoin"}
 Heavy3 == {"AuthCheck:event", "AuthCheck:provider", "Resolve:new:both"}
 VersionsTwo == {"5", "12"}
 VersionsPair == {"2", "12"}
 VersionsSix == {"1", "2", "5", "11", "12", "org.matrix.msc4014"}
 VersionsThree == {"2", "10", "12"}
+VersionsFour == {"2", "10", "12", "org.matrix.msc4014"}
 TypesThree == {"create", "member", "power_levels"}
 TypesTwo == {"member", "power_levels"}
 MutsAll == Mutators
@@ -51,12 +71,22 @@ NoOps == {}
 
 \* ---- event families ---------------------------------------------------------------------
 CoreGroups == {"room_id", "sender", "state_key", "redacts", "type", "content", "prev", "auth", "event_id"}
-FieldsC(v, t) == IF FieldSet = "core"
-                 THEN {f \in Fields(v, t) : f.grp \in CoreGroups /\ (f.grp = "event_id" => EventFormat(v) = 1)}
-                 ELSE Fields(v, t)
+EdgeGroups == {"room_id", "sender", "state_key", "type", "content", "auth", "depth", "signatures", "spelling"}
+EdgeDup == {F("dupfirst/room_id", "room", "room_id"), F("duplast/room_id", "room", "room_id"),
+            F("dupfirst/content", "json", "content"), F("duplast/state_key", "user", "state_key")}
+FieldsC(v, t) ==
+    CASE FieldSet = "core" ->
+           {f \in Fields(v, t) : /\ f.grp \in CoreGroups /\ f \notin DupFields /\ f.kind # "pseudokey"
+                                  /\ (f.grp = "event_id" => EventFormat(v) = 1)}
+      [] FieldSet = "edge" ->
+           {f \in Fields(v, t) : /\ f.grp \in EdgeGroups /\ (f \in DupFields => f \in EdgeDup)
+                                  /\ (f.kind = "json" => f.path = "content")      \* of the JSON-valued fields only the content itself
+                                  /\ (f.grp = "event_id" => EventFormat(v) = 1)}
+      [] OTHER -> Fields(v, t)
 
 SingleFaults(v, t) ==
-    UNION {{Fault(f, c) : c \in ClassesOf(f.kind, Depth)} : f \in FieldsC(v, t)}
+    IF Depth = "none" THEN {}
+    ELSE UNION {{Fault(f, c) : c \in ClassesOf(f.kind, Depth)} : f \in FieldsC(v, t)}
 
 \* double faults: one identifier / structure field together with a second field, core classes
 PairA == <<F("top/room_id", "room", "room_id"), F("top/sender", "user", "sender"), F("top/state_key", "user", "state_key")>>
@@ -91,15 +121,17 @@ DocOnly == {"empty_doc", "space", "truncated", "minus", "minus_in", "lone_escape
             "escapes_ascii", "escapes_ascii_key", "escapes_upper", "escapes_wide"}
 DocClasses == (Values \ {"missing"}) \cup DocOnly
 SigClasses == {"valid", "missing", "wrong_server", "wrong_key", "short", "long", "empty", "bad_b64", "sig_number",
-               "server_null", "server_string", "tampered", "null", "string", "array", "number", "garbage"}
+               "server_null", "server_string", "tampered", "two_keys_good_first", "two_keys_bad_only", "two_servers", "padded", "null", "string", "array", "number", "garbage"}
 KeyClasses == {"valid", "short", "len31", "len33", "len64", "empty", "bad_b64", "key_missing", "key_null", "key_number",
                "entry_null", "entry_string"}
+\* the ID of the current key listed among the old keys too (once good, once bad)
+DupKeyClasses == {"dup_valid", "dup_short", "dup_len33", "dup_empty", "dup_key_null"}
 HeaderClasses == {"valid", "empty", "scheme_only", "scheme_space", "other_scheme", "no_eq", "empty_values", "only_quotes",
                   "commas", "dup_origin", "bad_origin", "long", "nul", "unicode", "eq_only", "short_sig", "bad_sig",
                   "unknown_key", "other_alg", "unknown_origin", "other_destination"}
 \* a request carrying 0 to 3 Authorization headers: another scheme, or X-Matrix with an origin (a, the same name in
 \* another letter case A, another server b), one of two key IDs, and the destination present / absent / another one
-HdrItems == {"other"} \cup {"xm:" \o o \o ":" \o k \o ":" \o d : o \in {"a", "A", "b"}, k \in {"k1", "k2"}, d \in {"d", "n", "x"}}
+HdrItems == {"other"} \cup {"xm:" \o o \o ":" \o k \o ":" \o d : o \in {"a", "A", "b"}, k \in {"k1", "k2"}, d \in {"d", "n", "x", "s"}}
 HdrSeqs == UNION {[1..n -> HdrItems] : n \in 0..3}
 HdrName(s) == LET f[i \in 0..Len(s)] == IF i = 0 THEN "" ELSE IF i = 1 THEN s[1] ELSE f[i - 1] \o "|" \o s[i]
               IN IF Len(s) = 0 THEN "none" ELSE f[Len(s)]
@@ -119,7 +151,7 @@ InitRaw ==
           subject = RawSubject(v, "json", "json", c, "none") @@ [op |-> op]
     \/ \E c \in SigClasses, op \in {"VerifyJSON", "SignJSON", "ListKeyIDs", "Canonicalise:CanonicalJSON"} :
           subject = RawSubject("10", "signed", "json", c, "none") @@ [op |-> op]
-    \/ \E c1 \in KeyClasses, c2 \in KeyClasses \cup {"none"}, op \in KeyOps \cup {Dec("ServerKeys")} :
+    \/ \E c1 \in KeyClasses, c2 \in KeyClasses \cup {"none"} \cup DupKeyClasses, op \in KeyOps \cup {Dec("ServerKeys")} :
           subject = RawSubject("10", "keys", "json", c1, c2) @@ [op |-> op]
     \/ \E c \in HeaderClasses, op \in HeaderOps :
           subject = RawSubject("10", "header", "json", c, "none") @@ [op |-> op]
@@ -133,7 +165,8 @@ InitRaw ==
 InitRawEvent ==
     \E v \in Versions, t \in TypesC :
     \E f \in SingleFaults(v, t), op \in {"RedactJSON", "SignJSON", "Canonicalise:Enforced", Dec("ProtoEvent"),
-                                        "Body:CheckStateResponse", "Body:SendJoin", "Body:Transaction", "Body:LoadAndVerify"} :
+                                        "Body:CheckStateResponse", "Body:SendJoin", "Body:Transaction", "Body:LoadAndVerify",
+                                        "Handle:InviteV3"} :
        subject = [fam |-> "raw", ver |-> v, type |-> "event", f1 |-> f,
                   f2 |-> [path |-> t, kind |-> "none", grp |-> "none", cls |-> "none"], op |-> op]
 
@@ -177,7 +210,7 @@ Init ==
 
 \* ---- pipelines -----------------------------------------------------------------------------
 Groups == {subject.f1.grp, subject.f2.grp} \ {"none"}
-Relevant(a) == IF Groups = {} THEN TRUE ELSE Reads(a) \cap Groups # {}
+Relevant(a) == IF Groups = {} \/ "spelling" \in Groups THEN TRUE ELSE Reads(a) \cap Groups # {}
 Applicable(a) == /\ (a = "Creators" => subject.type = "create")
                  /\ (a = "Version" => Groups = {})
 LightObservers == {Acc(a) : a \in {x \in Accessors : Relevant(x) /\ Applicable(x)}}
@@ -186,13 +219,16 @@ AfterMutator == LightObservers \cup {Acc("EventID"), Acc("RoomID"), Acc("JSON"),
 
 Verdict == ParseVerdict(subject.ver, subject.f1, subject.f2)
 
+\* The sibling constructors (trusted, headered) are given bytes the untrusted parser accepted; their pipelines are
+\* the light observers, the heavy observers under normal callbacks and the mutators, two operations deep.
 NextEvent ==
     \/ /\ Len(hist) = 0
-       /\ \/ Verdict # "mustnot" /\ Parse("ok")
-          \/ Verdict # "must" /\ Parse("error")
+       /\ \E entry \in Entries :
+            \/ Verdict # "mustnot" /\ Parse(entry, "ok")
+            \/ Verdict # "must" /\ Parse(entry, "error")
     \/ /\ Len(hist) = 1 /\ MaxOps >= 2
-       /\ \E op \in LightObservers \cup Heavy \cup Muts : ParsedCall(op)
-    \/ /\ Len(hist) = 2 /\ MaxOps >= 3 /\ hist[2].op \in Mutators
+       /\ \E op \in LightObservers \cup (IF hist[1].op = "Parse:untrusted" THEN Heavy ELSE Heavy \ EnvOps) \cup Muts : ParsedCall(op)
+    \/ /\ Len(hist) = 2 /\ MaxOps >= 3 /\ hist[2].op \in Mutators /\ hist[1].op = "Parse:untrusted"
        /\ \E op \in AfterMutator \cup (Muts \ {hist[2].op}) : ParsedCall(op)
 
 NextRaw == Len(hist) = 0 /\ RawCall(subject.op)
